@@ -936,11 +936,11 @@ func Spec() *mon.Spec {
 			"a deadlock verdict is taken inside the case when the evaluation has not returned and every goroutine in pkg/eval code is blocked on a channel/semaphore/pipe in two identical censuses one second apart (the programs contain no timers)",
 		},
 		Phases: []mon.Phase{
-			{Name: "pipelines", Quick: 900, Thorough: 24000, Run: runPipeline, GoMaxProcs: 16, Timeout: 150 * time.Second},
+			{Name: "pipelines", Quick: 240, Thorough: 24000, Run: runPipeline, GoMaxProcs: 16, Timeout: 150 * time.Second},
 		},
 		HangViolation: true,
-		Floors: map[string]int{"distinct_nontrivial": 250, "complete_reads": 400, "early_exit_readers": 350, "early_exits_noticed_by_writer": 120,
-			"items_received": 20000, "pipelines_beyond_channel_buffer": 150, "pipelines_beyond_pipe_buffer": 10, "pipelines_with_exception": 150,
-			"pipelines_with_several_exceptions": 25, "interleavings": 350},
+		Floors: map[string]int{"distinct_nontrivial": 60, "complete_reads": 100, "early_exit_readers": 80, "early_exits_noticed_by_writer": 30,
+			"items_received": 5000, "pipelines_beyond_channel_buffer": 35, "pipelines_beyond_pipe_buffer": 2, "pipelines_with_exception": 35,
+			"pipelines_with_several_exceptions": 5, "interleavings": 80},
 	}
 }
